@@ -1,4 +1,136 @@
+(* C04 — vectorization does not change the model (vectorize=True == vectorize=False == unit-level edge sum).
+   Statements only; every proof is `exact <lemma of VectorizeProofs>`.  Model: theories/Vectorize.v.
+
+   What is proved for all inputs (any number of classes, units, edges): the index bookkeeping of cache_func, the
+   alignment of the grouped edge lists, both realisations of an edge projection (matrix product / indexed assignment)
+   equal to the edge sum, the branch condition, the combination of several source vector nodes and the default rule
+   (composed in C04_partial, per target unit, under the boolean guard default_survives_at), and the scalar collapse.
+   What is refuted (faithful model, replayed on the real code: corpus/C04): the full statement, by the lost default
+   (D14) and by the source variable of the first group (D3); loud classes D21, D32.
+   What is NOT proved: C04_guarded_statement (end-to-end `impl vec c st = Some (spec c st)` under `guard`): the
+   regrouping of the frontend edge list by (source class, target class) and the merge step are tied to the per-unit
+   theorems only by the correspondence run. *)
 From Coq Require Import List ZArith QArith Qcanon Bool Arith.
 From PV Require Import Vectorize VectorizeProofs.
-Theorem C04_stub : True. Proof. exact placeholder_true. Qed.
-Print Assumptions C04_stub.
+Import ListNotations.
+Open Scope Qc_scope.
+
+(* ---- cache_func / extend / append_values: index map ---- *)
+Theorem C04_index_map_injective : forall ks vn rs n1 n2, cache_all [] ks 0 = (vn, rs) ->
+  (n1 < length ks)%nat -> (n2 < length ks)%nat -> idx_of rs n1 = idx_of rs n2 -> n1 = n2.
+Proof. exact index_map_injective. Qed.
+Print Assumptions C04_index_map_injective.
+
+Theorem C04_member_at_index : forall ks vn rs n, cache_all [] ks 0 = (vn, rs) -> (n < length ks)%nat ->
+  (snd (idx_of rs n) < length (members vn (fst (idx_of rs n))))%nat /\
+  nth (snd (idx_of rs n)) (members vn (fst (idx_of rs n))) 0%nat = n.
+Proof. exact member_at_index. Qed.
+Print Assumptions C04_member_at_index.
+
+Theorem C04_ranges_unit : forall ks vn rs n, cache_all [] ks 0 = (vn, rs) -> (n < length ks)%nat ->
+  snd (snd (nth n rs rng_default)) = S (fst (snd (nth n rs rng_default))).
+Proof. exact ranges_unit. Qed.
+Print Assumptions C04_ranges_unit.
+
+(* ---- _group_edges: the three lists stay aligned; k-th entries = k-th edge of the group ---- *)
+Theorem C04_grouped_lists_aligned : forall ix es, Forall aligned (group_edges ix es).
+Proof. exact group_edges_aligned. Qed.
+Print Assumptions C04_grouped_lists_aligned.
+
+Theorem C04_grouped_lists_content : forall ix es key,
+  content (group_edges ix es) key = map (etriple ix) (filter (fun e => gkey_eqb (ekey ix e) key) es).
+Proof. exact group_edges_content. Qed.
+Print Assumptions C04_grouped_lists_content.
+
+(* ---- _generate_edge_equation: both branches equal the edge sum ---- *)
+Theorem C04_dot_is_edge_sum : forall tr sval u,
+  lookup (contrib_dot tr sval) u = if mem u (targets tr) then Some (tsum tr sval u) else None.
+Proof. exact dot_is_edge_sum. Qed.
+Print Assumptions C04_dot_is_edge_sum.
+
+Theorem C04_indexed_is_edge_sum : forall tr sval u, NoDup (targets tr) ->
+  lookup (contrib_idx tr sval) u = if mem u (targets tr) then Some (tsum tr sval u) else None.
+Proof. exact idx_is_edge_sum. Qed.
+Print Assumptions C04_indexed_is_edge_sum.
+
+Theorem C04_indexed_branch_condition : forall tsize ssize ti, dot_edge tsize ssize ti = false -> NoDup ti.
+Proof. exact indexed_branch_condition. Qed.
+Print Assumptions C04_indexed_branch_condition.
+
+Theorem C04_branch_choice_preserves : forall tsize ssize m sval a u, aligned_m m ->
+  contrib tsize ssize m sval = Some a ->
+  lookup a u = if mem u (mt m) then Some (tsum (mtriples m) sval u) else None.
+Proof. exact contrib_is_edge_sum. Qed.
+Print Assumptions C04_branch_choice_preserves.
+
+Theorem C04_indexed_with_duplicates_refuted : exists tr sval u,
+  lookup (contrib_idx tr sval) u <> Some (tsum tr sval u) /\ lookup (contrib_dot tr sval) u = Some (tsum tr sval u).
+Proof. exact idx_with_duplicates_refuted. Qed.
+Print Assumptions C04_indexed_with_duplicates_refuted.
+
+(* ---- several source vector nodes + default: the input of one target unit (composition of the above) ---- *)
+Theorem C04_partial : forall tsize ssize sval ml cs rdef u, Forall aligned_m ml ->
+  all_some (map (fun m => contrib tsize (ssize m) m (sval m)) ml) = Some cs ->
+  default_survives_at ml rdef u = true ->
+  input_of cs rdef u = if existsb (hits u) ml then msum ml sval u else rdef.
+Proof. exact input_partial. Qed.
+Print Assumptions C04_partial.
+
+Theorem C04_unconnected_unit_gets_zero : forall tsize ssize sval ml cs rdef u, Forall aligned_m ml ->
+  all_some (map (fun m => contrib tsize (ssize m) m (sval m)) ml) = Some cs ->
+  (2 <= length ml)%nat -> existsb (hits u) ml = false -> input_of cs rdef u = 0.
+Proof. exact unconnected_unit_gets_zero. Qed.
+Print Assumptions C04_unconnected_unit_gets_zero.
+
+(* ---- _finalize_var_def ---- *)
+Theorem C04_scalar_collapse : forall l i, (i < length l)%nat -> bget (finalize l) i = nth i l 0.
+Proof. exact finalize_preserves. Qed.
+Print Assumptions C04_scalar_collapse.
+
+Theorem C04_collapse_unequal_refuted : exists l i, (i < length l)%nat /\ bget (CScalar (hd 0 l)) i <> nth i l 0.
+Proof. exact collapse_unequal_refuted. Qed.
+Print Assumptions C04_collapse_unequal_refuted.
+
+(* ---- the full statement is false of the faithful model ---- *)
+Definition C04_full_statement : Prop := full_statement.
+Definition C04_guarded_statement : Prop := guarded_statement.      (* stated, not proved: see the header *)
+
+Theorem C04_full_refuted : ~ C04_full_statement.
+Proof. exact full_statement_refuted. Qed.
+Print Assumptions C04_full_refuted.
+
+Theorem C04_refuted_default :
+  wf w_d14 = true /\ no_constant_rhs w_d14 = true /\ single_source_var w_d14 = true /\ no_scalar_fanout w_d14 = true /\
+  default_survives w_d14 = false /\
+  impl false w_d14 st_d14 = Some (spec w_d14 st_d14) /\
+  impl true w_d14 st_d14 <> Some (spec w_d14 st_d14) /\
+  nth 2 (spec w_d14 st_d14) 0 = q 4 /\ impl true w_d14 st_d14 = Some [q 0; q (-5); q (-3); mkq (-1) 2; q 2].
+Proof. exact refuted_default. Qed.
+Print Assumptions C04_refuted_default.
+
+Theorem C04_refuted_source_var :
+  wf w_d03 = true /\ default_survives w_d03 = true /\ no_constant_rhs w_d03 = true /\ no_scalar_fanout w_d03 = true /\
+  single_source_var w_d03 = false /\
+  impl false w_d03 st_d03 = Some (spec w_d03 st_d03) /\ impl true w_d03 st_d03 <> Some (spec w_d03 st_d03).
+Proof. exact refuted_source_var. Qed.
+Print Assumptions C04_refuted_source_var.
+
+Theorem C04_err_constant_rhs :
+  wf w_d21 = true /\ no_constant_rhs w_d21 = false /\ impl true w_d21 [q 1; q 2] = None /\
+  impl false w_d21 [q 1; q 2] = Some (spec w_d21 [q 1; q 2]).
+Proof. exact err_constant_rhs. Qed.
+Print Assumptions C04_err_constant_rhs.
+
+Theorem C04_err_scalar_fanout :
+  wf w_d32 = true /\ no_scalar_fanout w_d32 = false /\ impl true w_d32 st_d32 = None /\
+  impl false w_d32 st_d32 = Some (spec w_d32 st_d32).
+Proof. exact err_scalar_fanout. Qed.
+Print Assumptions C04_err_scalar_fanout.
+
+(* non-vacuity: inside every guard, merged units, fan-in from two classes, parallel edges, self-connection, algebraic source *)
+Example C04_nonvacuous :
+  wf w_ok = true /\ guard w_ok = true /\
+  impl true w_ok st_ok = Some (spec w_ok st_ok) /\ impl false w_ok st_ok = Some (spec w_ok st_ok) /\
+  spec w_ok st_ok = [mkq (-1) 4; q (-2); q 3; mkq 49 4; q 1].
+Proof. exact nonvacuous. Qed.
+Print Assumptions C04_nonvacuous.
